@@ -122,7 +122,7 @@ def case_mean_enum(ctx, nf, grid, layout):
 def case_per_frequency(ctx, nf, layout):
     """per-frequency and peak variants use the moments at that frequency"""
     f, e, mom, s = _build_1d(ctx, nf, "uniform", layout)
-    pk = [int(i) for i in C.values(s.peak_index())]
+    pk = [int(i) for i in C.values(ctx.noraise("D-PK.raise", s.peak_index))]
     mdf = np.asarray(s.mean_direction_per_frequency.values).reshape(-1, nf)
     msf = np.asarray(s.mean_spread_per_frequency.values).reshape(-1, nf)
     pd = C.values(s.peak_direction())
@@ -254,7 +254,8 @@ def case_rotation(ctx, nf, nd, k, mirror=False, relabel=False):
     for nm in ("m0", "m1", "m2"):
         ctx.check(ctx.eq(C.values(getattr(s, nm)(fmin, fmax))[0], C.values(getattr(r, nm)(fmin, fmax))[0]),
                   "D-ROT.bulk", info=nm)
-    ctx.check(C.values(s.peak_index(fmin, fmax))[0] == C.values(r.peak_index(fmin, fmax))[0], "D-ROT.peak")
+    ctx.check(C.values(ctx.noraise("D-ROT.raise", s.peak_index, fmin, fmax))[0]
+              == C.values(ctx.noraise("D-ROT.raise", r.peak_index, fmin, fmax))[0], "D-ROT.peak")
     m0 = C.values(s.m0(fmin, fmax))[0]
     rm0 = C.values(r.m0(fmin, fmax))[0]
     A, B = C.values(s.mean_a1(fmin, fmax))[0], C.values(s.mean_b1(fmin, fmax))[0]
